@@ -29,6 +29,7 @@ func c08(r *Run) {
 	for _, st := range [][2]string{{"SetDeadline", "writeDeadline"}, {"SetWriteDeadline", "writeDeadline"}, {"SetWriteTimeout", "writeDeadline"}} {
 		r.setterStores("C08.R4:setter-records:"+st[0], "the deadline / timeout setters record what they are given on every path (SetWriteTimeout also clears a pending deadline): Flush can only time out at a deadline that was stored", "(*connection)."+st[0], st[1])
 	}
+	setterAdmitsZero(r, "C08.R4:timeout-can-be-cleared:SetWriteTimeout", "(*connection).SetWriteTimeout", "writeTimeout")
 	r.optionPlumbed("C08.R4:write-timeout-option-applied", "the write timeout configured on the event loop (WithWriteTimeout) is the value installed as the connection's write timeout: a Flush on a connection created by the loop times out as configured", "WithWriteTimeout", "(*connection).SetWriteTimeout")
 	ro := r.roles()
 	px := protoEffects(w)
@@ -83,6 +84,14 @@ func c08(r *Run) {
 		r.mustPass("C08.R1:concurrent-rejected:"+fn.Name(), "a Flush/Write that finds the lock taken returns ErrConcurrentAccess", fn, nil, failEdges, w.isException("ErrConcurrentAccess"), nil, nil, "Exception(ErrConcurrentAccess) on every path")
 		r.neverReach("C08.R1:concurrent-does-not-disturb:"+fn.Name(), "the rejected call touches neither the output buffer nor the socket", fn, nil, failEdges,
 			anyOf(isOut(), func(i ssa.Instruction) bool { return isCall(i, flush) }, isRelease), nil, nil, nil, "no buffer use / unlock reachable from the lock-failed edge")
+		// ... not before the attempt either: whatever Write/Flush puts into or takes from the output buffer happens after the
+		// lock was obtained (bytes copied in before a rejected attempt would be sent by the owner's next Flush)
+		for _, use := range findIns(fn, isOut()) {
+			ss := &Search{Fn: fn, CutEdge: cutOn(callResultAtom(ro.lock, true, kF))}
+			wit := ss.Find([]Start{Entry(fn)}, isIns(use), false)
+			r.Visited += ss.Visited
+			r.obW("C08.R1:buffer-touched-only-under-lock:"+fn.Name(), "Flush/Write touch the output buffer only after they obtained the flushing lock: a call that is going to be rejected with ErrConcurrentAccess leaves nothing behind", fn, use, wit, "every use of the output buffer is behind lock(flushing)==true")
+		}
 		// closed connections are rejected before the lock
 		for _, site := range findIns(fn, func(i ssa.Instruction) bool { return isKeyCall(i, ro.lock, kF) }) {
 			r.guarded("C08.R1:active-before-lock:"+fn.Name(), "Flush/Write check IsActive() before taking the flushing lock (the finalizer stops that lock for ever)", fn, site, callResultAtom(ro.isActive, true), nil, "guarded by IsActive()")
